@@ -4,7 +4,13 @@ usage: seedcheck.py <dir-with-patch.diff> [--props C01,C02] [--tests]
 Prints per property: exit status and the rules that fired."""
 import json, os, re, shutil, subprocess, sys, tempfile
 HERE = os.path.dirname(os.path.dirname(os.path.abspath(__file__)))
-ENV = dict(os.environ, GOFLAGS="-mod=mod", GOPROXY="off", GOSUMDB="off", GOTOOLCHAIN="local", GOWORK="off")
+import atexit as _atexit, tempfile as _tempfile, shutil as _shutil
+_OWN_CACHE = None
+if not os.environ.get("VERIF_GOCACHE"):
+    _OWN_CACHE = _tempfile.mkdtemp(prefix="shovelseed-gocache.")
+    _atexit.register(lambda: _shutil.rmtree(_OWN_CACHE, ignore_errors=True))
+ENV = dict(os.environ, GOFLAGS="-mod=mod -trimpath", GOPROXY="off", GOSUMDB="off", GOTOOLCHAIN="local", GOWORK="off",
+           GOCACHE=os.environ.get("VERIF_GOCACHE") or _OWN_CACHE)
 d = sys.argv[1]
 props = None
 tests = "--tests" in sys.argv
